@@ -8,7 +8,7 @@
     tolerance literals and the order of the calls in validateTileMatrixSet are regenerated from
     /repo on every run (gen/TmsData.v). *)
 From Coq Require Import ZArith QArith String List Bool.
-From Texel Require Import Tms.Json Tms.Model Tms.ProofsC14 Tms.ProofsC14b Tms.F64Ratio.
+From Texel Require Import Tms.Json Tms.Model Tms.ProofsC14 Tms.ProofsC14b Tms.ProofsC14c Tms.F64Ratio.
 From Texel.Gen Require Import ConstsGen TmsData.
 Import ListNotations.
 Open Scope Z_scope.
@@ -123,6 +123,18 @@ Theorem C14_validate_total : forall t ids,
   validate t ids <> VPanic.
 Proof. exact validate_total_lemma. Qed.
 Print Assumptions C14_validate_total.
+
+(** For a DECODED document the first hypothesis and the tile width bound are automatic (every decoded tile matrix has a
+    point of origin -- an array of exactly two numbers since the repair of F6c -- and a tile width >= 1): validation of
+    a decoded set with a URI or WKT CRS never panics when the deepest requested id d has 0 <= d and
+    d + log2(root tile width) + 4 < 64. *)
+Theorem C14_validate_total_decoded : forall j t ids, decodeTMS j = Ok t ->
+  (forall d r, t_crs t <> CrsRef d r) ->
+  (forall root d, find_tm 0 (t_matrices t) = Some root -> max_list ids = Some d ->
+     0 <= d /\ d + Z.log2 (tm_tileWidth root) + 4 < 64) ->
+  validate t ids <> VPanic.
+Proof. exact validate_total_decoded_lemma. Qed.
+Print Assumptions C14_validate_total_decoded.
 
 (** regression for F12 (repaired): on WebMercatorQuad an empty request and the ids 52, -13, 30 are errors, 24 is fine *)
 Theorem C14_regression_F12 : exists t, decodeTMS gen_doc_WebMercatorQuad = Ok t /\
